@@ -3,6 +3,7 @@ Lean obligations, differential run (model driver vs. real headers), per-property
 implementation's own observations, verdict and evidence."""
 from __future__ import annotations
 import hashlib
+import os
 import json
 import random
 import time
@@ -242,11 +243,15 @@ def run_engine(prop: str, tier: str, lean_modules: List[str], profiles: List[Pro
     seen = set()
     dist: Dict[str, int] = {}
     mismatches = 0
+    chunk_n = int(os.environ.get('VERIF_ENGINE_CHUNK', '48'))     # grammars handled at a time: bounds the memory held in traces
     for prof in profiles:
-        t0 = time.time()
-        groups = prof.grammars(rng, tier)
+      t0 = time.time()
+      groups_all = prof.grammars(rng, tier)
+      k = 0
+      pacc = None
+      for ci in range(0, max(len(groups_all), 1), chunk_n):
+        groups = groups_all[ci:ci + chunk_n]
         cases: List[Case] = []
-        k = 0
         for g, roots, meta in groups:
             inputs = prof.inputs(rng, g, tier)
             for root in roots:
@@ -342,9 +347,23 @@ def run_engine(prop: str, tier: str, lean_modules: List[str], profiles: List[Pro
             if len(cov['samples']) < 4 and is_nontrivial(i) and rng.random() < 0.01:
                 cov['samples'].append({'grammar': c.g.proto_lines(), 'root': c.cfg.root, 'config': repr(c.cfg),
                                        'input_hex': c.data.hex(), 'result': i.result, 'events': len(i.events)})
-        pstat['wall_s'] = round(time.time() - t0, 1)
-        cov['programs'] += pstat['grammars'] - pstat['dropped_out_of_fuel']
-        cov['profiles'][prof.name] = pstat
+        # fold this chunk's statistics into the profile's
+        if pacc is None:
+            pacc = pstat
+        else:
+            for key in ('grammars', 'grammars_meeting_theorem_hypotheses_WFT', 'dropped_out_of_fuel', 'cases'):
+                pacc[key] += pstat[key]
+            pacc['compile_cpu_s'] = round(pacc['compile_cpu_s'] + pstat['compile_cpu_s'], 1)
+            pacc['run_s'] = round(pacc['run_s'] + pstat['run_s'], 1)
+            for key, n in pstat['results'].items():
+                pacc['results'][key] += n
+            for key, n in pstat['kinds'].items():
+                pacc['kinds'][key] = pacc['kinds'].get(key, 0) + n
+        del cases, mt, sems, ir, by_cid
+      pstat = pacc
+      pstat['wall_s'] = round(time.time() - t0, 1)
+      cov['programs'] += pstat['grammars'] - pstat['dropped_out_of_fuel']
+      cov['profiles'][prof.name] = pstat
     cov['model_impl_disagreements'] = mismatches
     if extra is not None:
         extra(v, cov, rng)
